@@ -100,6 +100,11 @@ def r2(ctx: Ctx) -> None:
     check_triggers(ctx, None)
 
 
+def check_registration(ctx: Ctx) -> None:
+    """C13.R4 as a premise of the properties whose events rely on being registered as declared"""
+    r4(ctx)
+
+
 def check_triggers(ctx: Ctx, only) -> None:
     """selection / filtering / exhaustive dispatch of the triggers of the given (type, when) rows (None = all)"""
     for (t, w), (suffix, handler, arg, tsrc) in ROWS.items():
@@ -277,6 +282,18 @@ def r4(ctx: Ctx) -> None:
                   "a hook already registered is rejected before any table is touched", "first decision: `event_hook in self.event_hooks` is false", p.describe()[:140])
         for l in loops(p):
             for bp in l.paths:
+                # a bucket created for a time is a new list of its own
+                made_here = {e.data.get("sym") for e in bp.events if e.kind == "note" and e.data.get("what") == "alloc"}
+                for e in bp.events:
+                    newb = None
+                    if e.kind == "store" and e.attr is None and "events_dict" in key(strip_ver(e.base)):
+                        newb = e.value
+                    elif e.kind == "call" and e.name == "setdefault" and e.recv is not None and "events_dict" in key(strip_ver(e.recv)) and len(e.args) == 2:
+                        newb = e.args[1]
+                    if newb is None:
+                        continue
+                    fresh = newb in made_here or newb[0] == "list"
+                    ctx.check(fresh, f, e.node, "each time gets a bucket of its own (a list created for that time, never one shared between times)", "events_dict[name][t] = []  (a new list per t)", short(newb) + (" is created once outside the loop over the hook's times" if not fresh else ""))
                 apps = [e for e in calls(bp) if e.name == "append" and e.args and key(e.args[0]) == "event_hook"]
                 for a in apps:
                     bucket = a.recv
